@@ -3,6 +3,7 @@
 PROP_MODULES = {
     'C03': ['contracts.builders', 'contracts.shared_grid', 'contracts.c03_grid'],
     'C04': ['contracts.builders', 'contracts.shared_grid', 'contracts.c03_grid', 'contracts.c04_meta', 'contracts.c08_creator'],
+    'C16': ['contracts.builders', 'contracts.shared_grid', 'contracts.c03_grid', 'contracts.c04_meta', 'contracts.c16_limits'],
     'C13': ['contracts.builders', 'contracts.shared_grid', 'contracts.c03_grid', 'contracts.c04_meta', 'contracts.c08_creator', 'contracts.c13_expiry'],
     'C08': ['contracts.builders', 'contracts.shared_grid', 'contracts.c03_grid', 'contracts.c04_meta', 'contracts.c08_creator'],
 }
@@ -29,6 +30,16 @@ NOT_APPLICABLE = {
 }
 
 MANIFEST_META = {
+    'C16': dict(
+        text='Proof on the real code that requests are validated before they cost anything: limit_tile answers non-None '
+             'exactly for in-grid addresses (int and named levels, negative and huge values, all grids); the public->internal '
+             'level mapping; TileLayer._internal_tile_coord only ever returns an in-grid tile; in TileLayer.render / get_info '
+             'the format, range and dimension checks precede the single tile-manager access, which receives the validated '
+             'coordinate and the checked dimensions; CacheMapLayer._image refuses columns x rows >= max_tile_limit before any '
+             'load; WMSServer.check_map_request refuses width x height > max_output_pixels; tile lists never contain an '
+             'out-of-grid address (_create_tile_list, _meta_tile_list).',
+        note='opaque-callee assumption for the trace conditions; HTTP status/body rendering, WMS-C and the request '
+             'parsers\' regular expressions are outside (levels reach the services as int(...) of \\d+ groups)'),
     'C04': dict(
         text='Proof of the meta-tile geometry on the real MetaGrid code for all grids / meta sizes / buffers / tiles: '
              'meta size never exceeds the level grid, main tile arithmetic (idempotence lemma), tile lists row by row '
